@@ -42,6 +42,7 @@ class ClassDecl:
     pure: dict = field(default_factory=dict)          # property/method name -> defining expression (spec side)
     bases: tuple = ()                                  # keys of base-class decls (for method lookup)
     views: dict = field(default_factory=dict)         # VIEW name -> expression over self (macro)
+    ghost_init: dict = field(default_factory=dict)    # ghost name -> expression: its value in a freshly allocated object
 
 
 @dataclass
@@ -80,6 +81,7 @@ class Contract:
     varargs: bool = False                     # extra positional/keyword arguments at call sites are ignored (opaque)
     at_call: dict = field(default_factory=dict)       # callee name -> [Clause] asserted in the caller just before each such call
     assume_after: dict = field(default_factory=dict)  # callee name -> [Clause] ASSUMED right after each such call (`result` bound); listed as assumptions
+    ghost_at_exit: dict = field(default_factory=dict)  # ghost path -> expression over the EXIT state (may mention cand_locals)
     cand_locals: tuple = ()                   # locals that candidates may mention besides __done__/__ret__
     ghost_yield: dict = field(default_factory=dict)
     rely_ensures: list = field(default_factory=list)
